@@ -98,6 +98,17 @@ def build(scratch: str, entries: dict[str, Any]) -> None:
                 f.write(ent["txt"])
         elif "l" in ent:
             os.symlink(ent["l"], full)
+        elif "fifo" in ent:
+            os.mkfifo(full)
+    for rel in sorted(entries):
+        ent = entries[rel]
+        if "hl" in ent:
+            full = os.path.join(scratch, rel)
+            os.makedirs(os.path.dirname(full), exist_ok=True)
+            try:
+                os.link(os.path.join(scratch, ent["hl"]), full)
+            except OSError:
+                pass
 
 
 def cli_flags(s: dict[str, Any]) -> list[str] | None:
@@ -322,9 +333,13 @@ def evidence_extras(counters: dict[str, Any], sets: dict[str, set[str]], runs: d
 def minimise(env: Env, case: dict[str, Any], fp: str, budget_evals: int = 400) -> dict[str, Any]:
     budget = [budget_evals]
 
+    import time as _time
+
+    deadline = _time.time() + float(os.environ.get("VERIF_MINIMISE_BUDGET_S", "150"))
+
     def fails(c: dict[str, Any]) -> bool:
-        if budget[0] <= 0:
-            return False
+        if budget[0] <= 0 or _time.time() > deadline:
+            return False  # out of evaluations or wall-clock: keep the best case found so far
         budget[0] -= 1
         r = env.run(c)
         return r["verdict"] == "violation" and any(v["fingerprint"] == fp for v in r.get("violations", []))
